@@ -38,7 +38,7 @@ def _walk_sensors():
 
 _SENSORS = _walk_sensors()
 _SNAP = [(s, dict(vars(s))) for s in _SENSORS]
-_TX0 = gp._modbus_tcp_tx
+_TX0 = getattr(gp, '_modbus_tcp_tx', None)     # private: its absence must not stop the harness
 
 
 def _generic_snapshot():
@@ -115,7 +115,8 @@ _MISSING = object()
 def reset(tx: int | None = None) -> None:
     """Restore module/class level mutable state to its import-time snapshot."""
     _generic_restore()
-    gp._modbus_tcp_tx = _TX0 if tx is None else tx
+    if _TX0 is not None:
+        gp._modbus_tcp_tx = _TX0 if tx is None else tx
     for s, d in _SNAP:
         cur = vars(s)
         if cur != d:
